@@ -238,8 +238,9 @@ Qed.
 (* the closure of each single root, tabulated *)
 Definition closure1 (u : fact) : list fact := match resolve crates [u] with Some St => St | None => [] end.
 Definition table : list (fact * list fact) := map (fun u => (u, closure1 u)) all_roots.
-Definition lookup (u : fact) : list fact :=
-  match find (fun p => fact_eqb (fst p) u) table with Some p => snd p | None => [] end.
+Definition lookup_in (tbl : list (fact * list fact)) (u : fact) : list fact :=
+  match find (fun p => fact_eqb (fst p) u) tbl with Some p => snd p | None => [] end.
+Definition lookup (u : fact) : list fact := lookup_in table u.
 
 Definition table_ok : bool :=
   forallb (fun u => match resolve crates [u] with Some _ => true | None => false end) all_roots.
@@ -248,15 +249,15 @@ Proof. vm_compute. reflexivity. Qed.
 
 Lemma lookup_spec u : In u all_roots -> forall x, In x (lookup u) <-> Reach crates [u] x.
 Proof.
-  intros Hu x. unfold lookup.
+  intros Hu x. unfold lookup, lookup_in.
   destruct (find (fun p => fact_eqb (fst p) u) table) as [p|] eqn:Ef.
   - apply find_some in Ef as [Hp E]. apply fact_eqb_iff in E. unfold table in Hp. apply in_map_iff in Hp as [u' [E' Hu']].
-    subst p. cbn in E. subst u'. cbn. unfold closure1.
+    subst p. cbn [fst] in E. subst u'. cbn [snd]. unfold closure1.
     pose proof table_ok_true as Hok. unfold table_ok in Hok. rewrite forallb_forall in Hok. specialize (Hok u Hu).
     destruct (resolve crates [u]) as [St|] eqn:Er; [|discriminate]. now apply (resolve_spec crates no_weak).
   - exfalso. apply (find_none _ _ Ef (u, closure1 u)).
     + unfold table. apply in_map_iff. exists u. auto.
-    + cbn. now apply fact_eqb_iff.
+    + cbn [fst]. now apply fact_eqb_iff.
 Qed.
 
 (* the universe: everything any selection can reach *)
@@ -287,11 +288,15 @@ Proof. unfold rule_holds, prem, concl. now rewrite !on_mem. Qed.
 
 (* for every pair of single requests u1 (bringing the premise) and u2 (bringing the unit), an unknown rule is satisfied
    already inside the closure of u1 or u2 *)
-Definition pair_ok (p : rule -> bool) (u1 u2 : fact) (r : rule) (k : kind) : bool :=
-  p r || negb (mem (prem r k) (lookup u1)) || negb (mem (FP (r_unit r) k) (lookup u2))
-  || mem (concl r k) (lookup u1) || mem (concl r k) (lookup u2).
+Definition pair_ok_in (tbl : list (fact * list fact)) (p : rule -> bool) (u1 u2 : fact) (r : rule) (k : kind) : bool :=
+  p r || negb (mem (prem r k) (lookup_in tbl u1)) || negb (mem (FP (r_unit r) k) (lookup_in tbl u2))
+  || mem (concl r k) (lookup_in tbl u1) || mem (concl r k) (lookup_in tbl u2).
+Definition table_coherent_in (tbl : list (fact * list fact)) (roots : list fact) (p : rule -> bool) : bool :=
+  forallb (fun u1 => forallb (fun u2 => forallb (fun r => pair_ok_in tbl p u1 u2 r KT && pair_ok_in tbl p u1 u2 r KH) rules) roots) roots.
+(* (the table and the roots are bound once so that vm_compute evaluates them once) *)
 Definition table_coherent (p : rule -> bool) : bool :=
-  forallb (fun u1 => forallb (fun u2 => forallb (fun r => pair_ok p u1 u2 r KT && pair_ok p u1 u2 r KH) rules) all_roots) all_roots.
+  let tbl := table in let roots := all_roots in table_coherent_in tbl roots p.
+Definition pair_ok := pair_ok_in table.
 
 Lemma table_coherent_known : table_coherent Known_C35 = true.
 Proof. vm_compute. reflexivity. Qed.
@@ -316,12 +321,12 @@ Proof.
   apply Hspec in Ep. apply (reach_split crates) in Ep as [u1 [Hu1 Hp1]].
   apply Hspec in Hunit. apply (reach_split crates) in Hunit as [u2 [Hu2 Hp2]].
   apply (lookup_spec u1 (Hroots _ Hu1)) in Hp1. apply (lookup_spec u2 (Hroots _ Hu2)) in Hp2.
-  unfold table_coherent in Ht. rewrite forallb_forall in Ht. specialize (Ht u1 (Hroots _ Hu1)).
+  unfold table_coherent, table_coherent_in in Ht. cbv zeta in Ht. rewrite forallb_forall in Ht. specialize (Ht u1 (Hroots _ Hu1)).
   rewrite forallb_forall in Ht. specialize (Ht u2 (Hroots _ Hu2)).
   rewrite forallb_forall in Ht. specialize (Ht r Hr). apply andb_true_iff in Ht as [HtT HtH].
   assert (Hk : pair_ok p u1 u2 r k = true) by (destruct k; assumption).
-  unfold pair_ok in Hk. rewrite Hp in Hk. cbn in Hk.
-  apply mem_In in Hp1. apply mem_In in Hp2. rewrite Hp1, Hp2 in Hk. cbn in Hk.
+  unfold pair_ok, pair_ok_in in Hk. fold (lookup u1) in Hk. fold (lookup u2) in Hk. rewrite Hp in Hk. rewrite orb_false_l in Hk.
+  apply mem_In in Hp1. apply mem_In in Hp2. rewrite Hp1, Hp2 in Hk. cbn [negb orb] in Hk.
   apply orb_true_iff in Hk as [Hk|Hk]; apply mem_In in Hk; apply Ec; eapply Hsub; eauto.
 Qed.
 
